@@ -730,17 +730,26 @@ _ADJ = ("read only when the character at the cursor is a tab (`ch == '\\t'` insi
         "the scan loop breaks before the read")
 
 
-def _is_const_eq(t: ast.AST, name: str | None = None) -> tuple[str, str] | None:
-    """`<name> == '<c>'` -> (name, c)"""
-    if isinstance(t, ast.Compare) and len(t.ops) == 1 and isinstance(t.ops[0], ast.Eq) and isinstance(t.left, ast.Name) \
+def _is_const_eq(t: ast.AST, name: str | None = None) -> tuple[str, str, bool] | None:
+    """`<name> == '<c>'` -> (name, c, True);  `<name> != '<c>'` -> (name, c, False)"""
+    if isinstance(t, ast.Compare) and len(t.ops) == 1 and isinstance(t.ops[0], (ast.Eq, ast.NotEq)) and isinstance(t.left, ast.Name) \
             and isinstance(t.comparators[0], ast.Constant) and isinstance(t.comparators[0].value, str):
         if name is None or t.left.id == name:
-            return (t.left.id, t.comparators[0].value)
+            return (t.left.id, t.comparators[0].value, isinstance(t.ops[0], ast.Eq))
     return None
 
 
+def _eq_arms(i: ast.If, name: str | None = None):
+    """(name, constant, statements run when equal, statements run when different) of `if name ==/!= const`."""
+    ce = _is_const_eq(i.test, name)
+    if ce is None:
+        return None
+    return (ce[0], ce[1], i.body, i.orelse) if ce[2] else (ce[0], ce[1], i.orelse, i.body)
+
+
 def _tab_flag_exempt(f: Func, ld: ast.Name) -> bool:
-    """The reviewed shape of the blockquote tab flag, stated structurally (robust to renaming, loop form and extraction):
+    """The reviewed shape of the blockquote tab flag, stated structurally (robust to renaming, loop form, inverted tests and
+    extraction into a helper):
 
       d = S[p]                       (possibly in try/except IndexError -> None)
       if d == ' ': ...X = ..   elif d == '\t': ...X = .. on every path   else: <no store to p, no X>
@@ -752,25 +761,28 @@ def _tab_flag_exempt(f: Func, ld: ast.Name) -> bool:
         return False
     parents = f.module.parents
     X = ld.id
-    # -- the read: inside `if c == '\t'` inside `if isStrSpace(c) ... else: break` inside a loop whose body starts with c = S[p]
+    # -- the read: inside the equal arm of `c == '\t'` inside `if isStrSpace(c) ... else: break` inside a loop starting with c = S[p]
     n: ast.AST = ld
     tab_if = sp_if = loop = None
+    cname = None
     while n in parents and n is not f.node:
         par = parents[n]
         if isinstance(par, ast.If):
-            ce = _is_const_eq(par.test)
-            if tab_if is None and ce and ce[1] == "\t" and n in par.body:
-                tab_if = par
-            elif tab_if is not None and sp_if is None and isinstance(par.test, ast.Call) and U(par.test.func).split(".")[-1] == "isStrSpace" \
-                    and len(par.test.args) == 1 and isinstance(par.test.args[0], ast.Name) and n in par.body:
-                sp_if = par
+            arms = _eq_arms(par)
+            if tab_if is None and arms and arms[1] == "\t" and n in arms[2]:
+                tab_if, cname = par, arms[0]
+            elif tab_if is not None and sp_if is None:
+                t, body, other = par.test, par.body, par.orelse
+                if isinstance(t, ast.UnaryOp) and isinstance(t.op, ast.Not):
+                    t, body, other = t.operand, par.orelse, par.body
+                if isinstance(t, ast.Call) and U(t.func).split(".")[-1] == "isStrSpace" and len(t.args) == 1 \
+                        and isinstance(t.args[0], ast.Name) and t.args[0].id == cname and n in body \
+                        and other and isinstance(other[-1], ast.Break):
+                    sp_if = par
         elif isinstance(par, (ast.While, ast.For)) and sp_if is not None and loop is None and n in par.body:
             loop = par
         n = par
     if tab_if is None or sp_if is None or loop is None:
-        return False
-    cname = _is_const_eq(tab_if.test)[0]          # type: ignore[index]
-    if sp_if.test.args[0].id != cname or not (sp_if.orelse and isinstance(sp_if.orelse[-1], ast.Break)):
         return False
     first = loop.body[0]
     if not (isinstance(first, ast.Assign) and len(first.targets) == 1 and isinstance(first.targets[0], ast.Name)
@@ -787,15 +799,15 @@ def _tab_flag_exempt(f: Func, ld: ast.Name) -> bool:
     li = blk.index(loop)
     chain = None
     for st in reversed(blk[:li]):
-        if isinstance(st, ast.If) and _is_const_eq(st.test):
+        if isinstance(st, ast.If) and _eq_arms(st):
             chain = st
             break
     if chain is None:
         return False
     ci = blk.index(chain)
-    dname = _is_const_eq(chain.test)[0]           # type: ignore[index]
+    dname = _eq_arms(chain)[0]           # type: ignore[index]
     consts: list[str] = []
-    cur: ast.AST = chain
+    cur: ast.If = chain
     else_body: list[ast.stmt] = []
 
     def must_assign(stmts: list[ast.stmt]) -> bool:
@@ -808,12 +820,12 @@ def _tab_flag_exempt(f: Func, ld: ast.Name) -> bool:
                 return True
         return False
     while True:
-        ce = _is_const_eq(cur.test, dname)        # type: ignore[attr-defined]
-        if ce is None or not must_assign(cur.body):          # type: ignore[attr-defined]
+        arms = _eq_arms(cur, dname)
+        if arms is None or not must_assign(arms[2]):
             return False
-        consts.append(ce[1])
-        orelse = cur.orelse                        # type: ignore[attr-defined]
-        if len(orelse) == 1 and isinstance(orelse[0], ast.If):
+        consts.append(arms[1])
+        orelse = arms[3]
+        if len(orelse) == 1 and isinstance(orelse[0], ast.If) and _eq_arms(orelse[0], dname):
             cur = orelse[0]
             continue
         else_body = orelse
